@@ -1,5 +1,6 @@
 import ParryModel.Proto
 import ParryModel.C17.Model
+import ParryModel.C17.CutModel
 /-! C17 protocol handlers: model evaluation at `Float` and exact-`Rat` oracles on implementation output. -/
 namespace C17
 open Model Proto
@@ -353,6 +354,39 @@ def clipSegOracle (b : Aabb3 Float) (pa pb : V3 Float) (out : List String) : Str
          if nearV3 X (A.add (D.smul a)) sc && nearV3 Y (A.add (D.smul b)) sc then "pass" else "fail wrong-end-points")
   | _ => "fail unparsable-output"
 
+/-- oracle for the segment constructors `Aabb::clip_line` (`ray = false`) / `Aabb::clip_ray` (`ray = true`): with `[a, b]` the exact
+parameter interval of the line (`|t| ≤ f64::MAX`) / ray (`0 ≤ t ≤ f64::MAX`) inside the box, `None ⇔` empty, otherwise the end points
+are `o + a·d` and `o + b·d` (inside the box, on the line, nothing cut off). -/
+def lineSegOracle (ray : Bool) (b : Aabb3 Float) (o d : V3 Float) (out : List String) : String :=
+  if !(finiteBox b && finite3 o && finite3 d) then "skip nonfinite-input" else
+  let B := qaabb3 b; let O := q3 o; let D := q3 d
+  if !validBoxR B then "skip invalid-box" else
+  let lo0 : Rat := if ray then 0 else -bigR
+  let exSeg : Option (Rat × Rat) := match exactLineClip B O D with
+    | none => none
+    | some (l, h) =>
+      let a := max (l.getD lo0) lo0; let b := min (h.getD bigR) bigR
+      if a ≤ b then some (a, b) else none
+  let sc := 1 + boxScale B + maxAbs3 O + maxAbs3 D
+  match out with
+  | "panic" :: _ => "fail panic"
+  | ["none"] =>
+    (match exSeg with
+     | none => "pass"
+     | some (a, b) => if (b - a) * (1 + maxAbs3 D) ≤ tol * sc then "pass" else s!"fail none-but-line-meets-box t∈[{a},{b}]")
+  | "some" :: rest =>
+    (match run (do let x ← pov3; let y ← pov3; pend; pure (x, y)) rest with
+     | none => "fail unparsable-output"
+     | some (x, y) =>
+       if !(finite3 x && finite3 y) then "fail nonfinite-output" else
+       let X := q3 x; let Y := q3 y
+       match exSeg with
+       | none => if inBoxTol B X && inBoxTol B Y then "pass" else "fail some-but-line-misses-box"
+       | some (a, b) =>
+         if !(inBoxTol B X && inBoxTol B Y) then "fail end-point-outside-box" else
+         if nearV3 X (O.add (D.smul a)) sc && nearV3 Y (O.add (D.smul b)) sc then "pass" else "fail wrong-end-points")
+  | _ => "fail unparsable-output"
+
 /-! ### polygon clipping -/
 /-- `q` lies on the closed segment `[a,b]` (within tolerance) -/
 def onSegment (a b p : V3 Rat) (sc : Rat) : Bool :=
@@ -502,6 +536,45 @@ def segSegOracle (a1 b1 a2 b2 : V2 Float) (out : List String) : String :=
          if !onSegment2 A1 B1 P1 sc then "fail p1-not-on-seg1" else
          if !onSegment2 A2 B2 P2 sc then "fail p2-not-on-seg2" else
          if rabs (pr P1 - pr P2) > pt then "fail projections-differ" else
+         if rabs (pr P1 - target) > pt then "fail not-at-overlap-end" else
+         if c.f1 == 0 && !eqV2 P1 A1 then "fail feature-0-but-not-first-vertex" else
+         if c.f1 == 2 && !eqV2 P1 B1 then "fail feature-2-but-not-second-vertex" else
+         if c.f2 == 0 && !eqV2 P2 A2 then "fail feature-0-but-not-first-vertex" else
+         if c.f2 == 2 && !eqV2 P2 B2 then "fail feature-2-but-not-second-vertex" else
+         if c.f1 > 2 || c.f2 > 2 then "fail bad-feature" else "pass"
+       let r := chk ca lo
+       if r != "pass" then r else chk cb hi)
+  | _ => "fail unparsable-output"
+
+/-- oracle for `clip_segment_segment_with_normal` (2-D): with `τ(p) = p·(-n.y, n.x)`: `None ⇔` the `τ`-ranges of the two segments
+are disjoint; otherwise `p1 ∈ seg1`, `p2 ∈ seg2`, `τ(p1) = τ(p2)` = lower end of the overlap for the first pair, upper end for the
+second; feature codes `0`/`2` name the first/second vertex of the segment. -/
+def segSegNormalOracle (a1 b1 a2 b2 n : V2 Float) (out : List String) : String :=
+  if !(finite2 a1 && finite2 b1 && finite2 a2 && finite2 b2 && finite2 n) then "skip nonfinite-input" else
+  let A1 := q2 a1; let B1 := q2 b1; let A2 := q2 a2; let B2 := q2 b2; let N := q2 n
+  let T : V2 Rat := ⟨-N.y, N.x⟩
+  let pr (p : V2 Rat) : Rat := p.dot T
+  let lo1 := min (pr A1) (pr B1); let hi1 := max (pr A1) (pr B1)
+  let lo2 := min (pr A2) (pr B2); let hi2 := max (pr A2) (pr B2)
+  let sc := 1 + max (max (rabs A1.x) (rabs A1.y)) (max (max (rabs B1.x) (rabs B1.y)) (max (max (rabs A2.x) (rabs A2.y)) (max (rabs B2.x) (rabs B2.y))))
+  let pt := tol * sc * (1 + rabs N.x + rabs N.y) * 10
+  let lo := max lo1 lo2; let hi := min hi1 hi2
+  match out with
+  | "panic" :: _ => "fail panic"
+  | ["none"] => if hi - lo > pt then "fail none-but-ranges-overlap" else "pass"
+  | "some" :: rest =>
+    (match run (do let x ← pcp; let y ← pcp; pend; pure (x, y)) rest with
+     | none => "fail unparsable-output"
+     | some (ca, cb) =>
+       if lo - hi > pt then "fail some-but-ranges-disjoint" else
+       if !([ca, cb].all fun c => finite2 c.p1 && finite2 c.p2) then "fail nonfinite-output" else
+       -- a segment whose `τ`-extent is within rounding of zero has no well-conditioned interpolation parameter
+       if (hi1 - lo1 ≤ pt && hi1 != lo1) || (hi2 - lo2 ≤ pt && hi2 != lo2) then "skip nearly-degenerate-range" else
+       let chk (c : CP) (target : Rat) : String :=
+         let P1 := q2 c.p1; let P2 := q2 c.p2
+         if !onSegment2 A1 B1 P1 sc then "fail p1-not-on-seg1" else
+         if !onSegment2 A2 B2 P2 sc then "fail p2-not-on-seg2" else
+         if rabs (pr P1 - pr P2) > pt then "fail tangent-coordinates-differ" else
          if rabs (pr P1 - target) > pt then "fail not-at-overlap-end" else
          if c.f1 == 0 && !eqV2 P1 A1 then "fail feature-0-but-not-first-vertex" else
          if c.f1 == 2 && !eqV2 P1 B1 then "fail feature-2-but-not-second-vertex" else
@@ -680,6 +753,100 @@ def sectionOracle (m : MeshF) (sd : V3 Rat → Rat) (colF : Option (V3 Float →
        if crossing.any (fun (a, b) => !(List.range V.size).any fun k => used k && onSegment P[a]! P[b]! V[k]! scale && rabs (sd V[k]!) ≤ t * 1000)
        then "fail crossed-edge-without-polyline-vertex" else "pass")
   | _ => "fail unparsable-output"
+
+/-! ### the cutting part of `TriMesh::local_split` (modelled: `Model.Cut.localSplitUncapped`) -/
+
+instance : Inhabited (V3 Float) := ⟨⟨0, 0, 0⟩⟩
+
+def fmeshOut (m : List (V3 Float) × List Tri) : String :=
+  m.2.foldl (fun s t => s ++ s!" {t.1} {t.2.1} {t.2.2}") (fpts m.1 ++ s!" {m.2.length}")
+
+def fsectionM : Option (Section.Result Float) → String
+  | none => "panic" | some .negative => "neg" | some .positive => "pos"
+  | some (.intersect v sg) => sg.foldl (fun s e => s ++ s!" {e.1} {e.2}") (s!"poly {fpts v} {sg.length}")
+
+def fcut : Option (Split (Cut.MeshOut Float)) → String
+  | none => "panic"
+  | some .negative => "neg"
+  | some .positive => "pos"
+  | some (.pair l r) => s!"pair {fmeshOut l} {fmeshOut r}"
+
+/-- oracle for the cutting part of `TriMesh::local_split` on a mesh without caps (clause "pieces lie in their own closed
+half-space and their total area equals the original's", per triangle). First everything `splitOracle` asks (verdicts, sides, total
+area). Then, when the floating-point colours are the exact ones:
+* every output vertex is an input vertex (bit-identical) or lies on the plane and on an input edge whose end points are beyond
+  `eps` on opposite sides;
+* crossing points are shared: each half has exactly (its input vertices) + (number of crossed undirected edges) vertices;
+* every output triangle lies in exactly one input triangle (skipped when input faces overlap), has the orientation of that
+  triangle, and the vector areas `(b-a)×(c-a)` of the pieces of each input triangle (both halves together) add up to the
+  triangle's. -/
+def cutOracle (m : MeshF) (sd : V3 Rat → Rat) (colF : V3 Float → Nat) (e : Rat) (scale : Rat) (o : List String) : String :=
+  let base := splitOracle { m with oriented := false } sd (some colF) e scale o
+  if base != "pass" then base else
+  match o with
+  | "pair" :: rest =>
+    (match run (do let l ← pmeshOut; let r ← pmeshOut; pend; pure (l, r)) rest with
+     | none => "fail unparsable-output"
+     | some ((lp, lt), (rp, rt)) =>
+       let P := (m.pts.map q3).toArray
+       let L := (lp.map q3).toArray; let R := (rp.map q3).toArray
+       let t := tol * scale
+       let S := P.toList.map sd
+       let cols := (m.pts.map colF).toArray
+       let ambiguous := (cols.toList.zip S).any fun (c, sx) => (c != 0 && rabs sx ≤ e + t) || (c == 0 && rabs sx > e + t)
+       if ambiguous then "pass" else
+       let und := (m.tris.flatMap fun (a, b, c) => [(a, b), (b, c), (c, a)]).map fun (a, b) => if a < b then (a, b) else (b, a)
+       let crossed := und.eraseDups.filter fun (a, b) => (cols[a]! == 1 && cols[b]! == 2) || (cols[a]! == 2 && cols[b]! == 1)
+       -- pre-filters in floating point (same numbers): exact equality with an input vertex; bounding box of the edge with a slack
+       let slackE : Float := (Float.ofScientific 1 true 4) * (1 + (m.pts.foldl (fun s p => s + p.x.abs + p.y.abs + p.z.abs) 0))
+       let isInputF (p : V3 Float) : Bool := m.pts.any fun v => v.x == p.x && v.y == p.y && v.z == p.z
+       let PFe := m.pts.toArray
+       let nearSeg (a b p : V3 Float) : Bool :=
+         (if a.x < b.x then a.x else b.x) - slackE ≤ p.x && p.x ≤ (if a.x < b.x then b.x else a.x) + slackE &&
+         (if a.y < b.y then a.y else b.y) - slackE ≤ p.y && p.y ≤ (if a.y < b.y then b.y else a.y) + slackE &&
+         (if a.z < b.z then a.z else b.z) - slackE ≤ p.z && p.z ≤ (if a.z < b.z then b.z else a.z) + slackE
+       let isCrossing (pf : V3 Float) : Bool := let p := q3 pf
+         rabs (sd p) ≤ t * 1000 && crossed.any fun (a, b) => nearSeg PFe[a]! PFe[b]! pf && onSegment P[a]! P[b]! p scale
+       if (lp ++ rp).any (fun p => !isInputF p && !isCrossing p) then "fail new-vertex-not-a-plane-crossing-of-a-crossed-edge" else
+       let nl := (cols.toList.filter (· != 2)).length + crossed.length
+       let nr := (cols.toList.filter (· != 1)).length + crossed.length
+       if L.size != nl || R.size != nr then s!"fail crossing-points-not-shared l={L.size}/{nl} r={R.size}/{nr}" else
+       let outs : List (V3 Rat × V3 Rat × V3 Rat) := (lt.map (triPts L)) ++ (rt.map (triPts R))
+       let ins : List (V3 Rat × V3 Rat × V3 Rat) := m.tris.map (triPts P)
+       let nrm (x : V3 Rat × V3 Rat × V3 Rat) : V3 Rat := (x.2.1.sub x.1).cross (x.2.2.sub x.1)
+       -- bounding-box pre-filter in floating point (the coordinates are the same numbers; the slack is 100× the tolerance)
+       let slackF : Float := (Float.ofScientific 1 true 4) * (1 + (m.pts.foldl (fun s p => s + p.x.abs + p.y.abs + p.z.abs) 0))
+       let fmin (a b : Float) : Float := if a < b then a else b
+       let fmax (a b : Float) : Float := if a < b then b else a
+       let bbF (A : Array (V3 Float)) (tr : Tri) : V3 Float × V3 Float :=
+         let a := A[tr.1]!; let b := A[tr.2.1]!; let c := A[tr.2.2]!
+         (⟨fmin a.x (fmin b.x c.x), fmin a.y (fmin b.y c.y), fmin a.z (fmin b.z c.z)⟩,
+          ⟨fmax a.x (fmax b.x c.x), fmax a.y (fmax b.y c.y), fmax a.z (fmax b.z c.z)⟩)
+       let PF := m.pts.toArray; let LF := lp.toArray; let RF := rp.toArray
+       let insB : Array ((V3 Rat × V3 Rat × V3 Rat) × (V3 Float × V3 Float)) :=
+         ((ins.zip m.tris).map fun (T, tr) => (T, bbF PF tr)).toArray
+       let outsB : List ((V3 Rat × V3 Rat × V3 Rat) × (V3 Float × V3 Float)) :=
+         ((lt.map fun tr => (triPts L tr, bbF LF tr)) ++ (rt.map fun tr => (triPts R tr, bbF RF tr)))
+       let inT (T : V3 Rat × V3 Rat × V3 Rat) (p : V3 Rat) : Bool :=
+         eqV3 p T.1 || eqV3 p T.2.1 || eqV3 p T.2.2 || inTriangle3 T.1 T.2.1 T.2.2 p scale
+       let inside (TB : (V3 Rat × V3 Rat × V3 Rat) × (V3 Float × V3 Float)) (x : V3 Rat × V3 Rat × V3 Rat) (xb : V3 Float × V3 Float) : Bool :=
+         let T := TB.1; let (lo, hi) := TB.2
+         lo.x - slackF ≤ xb.1.x && xb.2.x ≤ hi.x + slackF && lo.y - slackF ≤ xb.1.y && xb.2.y ≤ hi.y + slackF &&
+         lo.z - slackF ≤ xb.1.z && xb.2.z ≤ hi.z + slackF &&
+         inT T x.1 && inT T x.2.1 && inT T x.2.2
+       let owners := outsB.map fun (x, xb) => (x, (List.range insB.size).filter fun k => inside insB[k]! x xb)
+       if owners.any (fun (_, ks) => ks.isEmpty) then "fail piece-outside-every-input-triangle" else
+       if owners.any (fun (x, ks) => ks.length > 1 && maxAbs3 (nrm x) > t) then "pass overlapping-faces" else
+       let atol := (1 / 100000000 : Rat) * scale * scale
+       let bad := (List.range ins.length).filter fun k =>
+         let N := nrm ins[k]!
+         let mine := (owners.filter fun (x, ks) => ks == [k] ).map (·.1)
+         let sum := mine.foldl (fun acc x => acc.add (nrm x)) (⟨0, 0, 0⟩ : V3 Rat)
+         maxAbs3 (sum.sub N) > atol || mine.any fun x => (nrm x).dot N < -atol * (1 + maxAbs3 N)
+       match bad with
+       | k :: _ => s!"fail triangle-area-not-conserved-by-its-pieces tri={k}"
+       | [] => "pass")
+  | _ => "pass"
 
 /-! ### intersect_meshes and TriMesh::intersection_with_{local_cuboid, cuboid, aabb} (oracle-only) -/
 
@@ -943,6 +1110,18 @@ def handler (fn : String) : Option Handler :=
       oracle := fun a o => match run (do let b ← paabb3; let p ← pv3; let d ← pv3; pure (b, p, d)) a with
         | some (b, p, d) => paramsOracle true b p d o
         | none => "skip bad-args" }
+  | "clip_line_seg" => some {
+      model := fun a => run (do let b ← paabb3; let o ← pv3; let d ← pv3
+                                pure (match clipLine b o d with | none => "none" | some s => "some " ++ fseg s)) a
+      oracle := fun a o => match run (do let b ← paabb3; let p ← pv3; let d ← pv3; pure (b, p, d)) a with
+        | some (b, p, d) => lineSegOracle false b p d o
+        | none => "skip bad-args" }
+  | "clip_ray_seg" => some {
+      model := fun a => run (do let b ← paabb3; let o ← pv3; let d ← pv3
+                                pure (match clipRay b o d with | none => "none" | some s => "some " ++ fseg s)) a
+      oracle := fun a o => match run (do let b ← paabb3; let p ← pv3; let d ← pv3; pure (b, p, d)) a with
+        | some (b, p, d) => lineSegOracle true b p d o
+        | none => "skip bad-args" }
   | "clip_seg" => some {
       model := fun a => run (do let b ← paabb3; let p ← pv3; let p' ← pv3
                                 pure (match clipSegment b p p' with | none => "none" | some s => "some " ++ fseg s)) a
@@ -966,6 +1145,47 @@ def handler (fn : String) : Option Handler :=
       oracle := fun a o => match run (do let a1 ← pv2; let b1 ← pv2; let a2 ← pv2; let b2 ← pv2; pure (a1, b1, a2, b2)) a with
         | some (a1, b1, a2, b2) => segSegOracle a1 b1 a2 b2 o
         | none => "skip bad-args" }
+  | "clip_seg_seg_n" => some {
+      model := fun a => run (do let a1 ← pv2; let b1 ← pv2; let a2 ← pv2; let b2 ← pv2; let n ← pv2
+                                pure (match clipSegmentSegmentWithNormal a1 b1 a2 b2 n with
+                                  | none => "none" | some (ca, cb) => s!"some {fcp ca} {fcp cb}")) a
+      oracle := fun a o => match run (do let a1 ← pv2; let b1 ← pv2; let a2 ← pv2; let b2 ← pv2; let n ← pv2; pure (a1, b1, a2, b2, n)) a with
+        | some (a1, b1, a2, b2, n) => segSegNormalOracle a1 b1 a2 b2 n o
+        | none => "skip bad-args" }
+  | "tm_section_m" => some {
+      model := fun a => run (do let m ← pmeshIn; let n ← pv3; let bias ← pf; let eps ← pf; pend
+                                pure (fsectionM (Section.localSection m.pts m.tris n bias eps))) a
+      oracle := fun a o => match run (do let m ← pmeshIn; let n ← pv3; let bias ← pf; let eps ← pf; pend; pure (m, n, bias, eps)) a with
+        | some (m, n, bias, eps) =>
+          if !(m.pts.all finite3 && finite3 n && FloatIO.isFinite bias && FloatIO.isFinite eps) then "skip nonfinite-input" else
+          let N := q3 n; let bi := q bias
+          if q eps < 0 then "skip negative-epsilon" else
+          if !nearR N.normSq 1 then "skip non-unit-normal" else
+          sectionOracle m (fun p => N.dot p - bi) (some (colourFloat n bias eps)) (q eps) (meshScale m bi) o
+        | none => "skip bad-args" }
+  | "tm_section_m_pos" => some {
+      model := fun a => run (do let m ← pmeshIn; let pos ← piso3; let n ← pv3; let bias ← pf; let eps ← pf; pend
+                                pure (fsectionM (Section.sectionPos m.pts m.tris pos n bias eps))) a
+      oracle := fun a o => match run (do let m ← pmeshIn; let pos ← piso3; let n ← pv3; let bias ← pf; let eps ← pf; pend; pure (m, pos, n, bias, eps)) a with
+        | some (m, pos, n, bias, eps) =>
+          if !(m.pts.all finite3 && finite3 n && finite3 pos.t && FloatIO.isFinite bias && FloatIO.isFinite eps) then "skip nonfinite-input" else
+          let N := q3 n; let bi := q bias; let M := qiso3 pos
+          if q eps < 0 then "skip negative-epsilon" else
+          if !nearR N.normSq 1 then "skip non-unit-normal" else
+          if !unitQ pos then "skip non-unit-quaternion" else
+          let (la, lb) := planeToLocal pos n bias
+          sectionOracle m (fun p => N.dot (M.act p) - bi) (some (colourFloat la lb eps)) (q eps) (meshScale m bi + maxAbs3 M.t) o
+        | none => "skip bad-args" }
+  | "tm_section_m_canon" => some {
+      model := fun a => run (do let m ← pmeshIn; let ax ← pnat; let bias ← pf; let eps ← pf; pend
+                                if h : ax < 3 then pure (fsectionM (Section.sectionCanonical m.pts m.tris ⟨ax, h⟩ bias eps)) else pure "panic") a
+      oracle := fun a o => match run (do let m ← pmeshIn; let ax ← paxis; let bias ← pf; let eps ← pf; pend; pure (m, ax, bias, eps)) a with
+        | some (m, ax, bias, eps) =>
+          if !(m.pts.all finite3 && FloatIO.isFinite bias && FloatIO.isFinite eps) then "skip nonfinite-input" else
+          let bi := q bias
+          if q eps < 0 then "skip negative-epsilon" else
+          sectionOracle m (fun p => p.get ax.val - bi) (some (colourFloat (ithAxis ax) bias eps)) (q eps) (meshScale m bi) o
+        | none => "skip bad-args" }
   | "tm_split" => some {
       model := fun _ => some "oracle-only"
       oracle := fun a o => match run (do let m ← pmeshIn; let n ← pv3; let bias ← pf; let eps ← pf; pend; pure (m, n, bias, eps)) a with
@@ -975,6 +1195,41 @@ def handler (fn : String) : Option Handler :=
           if q eps < 0 then "skip negative-epsilon" else
           if !nearR N.normSq 1 then "skip non-unit-normal" else
           splitOracle m (fun p => N.dot p - bi) (some (colourFloat n bias eps)) (q eps) (meshScale m bi) o
+        | none => "skip bad-args" }
+  | "tm_cut" => some {
+      model := fun a => run (do let m ← pmeshIn; let n ← pv3; let bias ← pf; let eps ← pf; pend
+                                pure (fcut (Cut.localSplitUncapped m.pts m.tris n bias eps))) a
+      oracle := fun a o => match run (do let m ← pmeshIn; let n ← pv3; let bias ← pf; let eps ← pf; pend; pure (m, n, bias, eps)) a with
+        | some (m, n, bias, eps) =>
+          if !(m.pts.all finite3 && finite3 n && FloatIO.isFinite bias && FloatIO.isFinite eps) then "skip nonfinite-input" else
+          let N := q3 n; let bi := q bias
+          if q eps < 0 then "skip negative-epsilon" else
+          if !nearR N.normSq 1 then "skip non-unit-normal" else
+          cutOracle m (fun p => N.dot p - bi) (colourFloat n bias eps) (q eps) (meshScale m bi) o
+        | none => "skip bad-args" }
+  | "tm_cut_pos" => some {
+      model := fun a => run (do let m ← pmeshIn; let pos ← piso3; let n ← pv3; let bias ← pf; let eps ← pf; pend
+                                pure (fcut (Cut.splitUncapped m.pts m.tris pos n bias eps))) a
+      oracle := fun a o => match run (do let m ← pmeshIn; let pos ← piso3; let n ← pv3; let bias ← pf; let eps ← pf; pend; pure (m, pos, n, bias, eps)) a with
+        | some (m, pos, n, bias, eps) =>
+          if !(m.pts.all finite3 && finite3 n && finite3 pos.t && FloatIO.isFinite bias && FloatIO.isFinite eps) then "skip nonfinite-input" else
+          let N := q3 n; let bi := q bias; let M := qiso3 pos
+          if q eps < 0 then "skip negative-epsilon" else
+          if !nearR N.normSq 1 then "skip non-unit-normal" else
+          if !unitQ pos then "skip non-unit-quaternion" else
+          -- the halves are expressed in the mesh's local frame; they are judged against the *world* plane through the pose
+          let (la, lb) := planeToLocal pos n bias
+          cutOracle m (fun p => N.dot (M.act p) - bi) (colourFloat la lb eps) (q eps) (meshScale m bi + maxAbs3 M.t) o
+        | none => "skip bad-args" }
+  | "tm_cut_canon" => some {
+      model := fun a => run (do let m ← pmeshIn; let ax ← pnat; let bias ← pf; let eps ← pf; pend
+                                if h : ax < 3 then pure (fcut (Cut.canonicalSplitUncapped m.pts m.tris ⟨ax, h⟩ bias eps)) else pure "panic") a
+      oracle := fun a o => match run (do let m ← pmeshIn; let ax ← paxis; let bias ← pf; let eps ← pf; pend; pure (m, ax, bias, eps)) a with
+        | some (m, ax, bias, eps) =>
+          if !(m.pts.all finite3 && FloatIO.isFinite bias && FloatIO.isFinite eps) then "skip nonfinite-input" else
+          let bi := q bias
+          if q eps < 0 then "skip negative-epsilon" else
+          cutOracle m (fun p => p.get ax.val - bi) (colourFloat (ithAxis ax) bias eps) (q eps) (meshScale m bi) o
         | none => "skip bad-args" }
   | "tm_split_pos" => some {
       model := fun _ => some "oracle-only"
